@@ -129,7 +129,11 @@ func concurrent(c *run.Ctx, forKeys bool, N int) {
 		if !c.Mine(i) {
 			continue
 		}
-		cs := &Case{Kind: "conc", Tpl: tpl, Ctxs: pooledStateCtxs(), W: 12, Rounds: c.N(4000, 40000)}
+		rounds := c.N(4000, 16000)
+		if c.Flavour == "race" {
+			rounds = 3000 // the race detector makes every evaluation an order of magnitude slower; it needs interleavings, not volume
+		}
+		cs := &Case{Kind: "conc", Tpl: tpl, Ctxs: pooledStateCtxs(), W: 12, Rounds: rounds}
 		c.Begin(cs, 0)
 		c.Nontrivial("conc-pooled", tpl)
 		c.Count("conc_cases", 1)
